@@ -35,6 +35,7 @@ def apply_contract(I, con, f, args, kwargs, bound_self, caller=None):
     for name, lam in con.lets:
         bindings[name] = _eval_value(I, lam, bindings)
     ctx.assumptions_used.add(f"contract:{con.qualname}")
+    _observe(I, "call:" + (con.effect_name or con.qualname), tuple(args))
     for cid, lam in con.requires_:
         fm = eval_clause(I, lam, bindings)
         ctx.check_obligation(f"{caller}::call[{short(con.qualname)}].{cid}", fm)
@@ -73,12 +74,18 @@ def apply_contract(I, con, f, args, kwargs, bound_self, caller=None):
                 raise Unsupported(f"{con.qualname}: frame names unknown field {fld}")
             new = ty.fresh(I, f"{short(con.qualname)}.{fld}'")
             cur = self_obj.fields.get(fld)
-            if deep and type(cur).__name__ in ("SMap", "SColl") and type(new) is type(cur):
-                # contents change, the binding (object identity) does not
-                oid = cur.oid
-                for attr, val in vars(new).items():
-                    setattr(cur, attr, val)
-                cur.oid = oid
+            if deep and type(cur).__name__ in ("SMap", "SColl"):
+                # `self.x.*`: the objects stored in the container may change state (futures may be
+                # completed); keys / membership and the identity of the stored objects do not -- that
+                # is what the callee's own frame check (frame.x.keys) establishes
+                from .asyncrule import evolve_future
+                from .values import SFuture
+
+                vals = [s_.value for s_ in cur.slots] if type(cur).__name__ == "SMap" else [v for _p, v in cur.members]
+                for v in vals:
+                    if isinstance(v, SFuture):
+                        evolve_future(I, v)
+                cur.rest_touched = True
             else:
                 self_obj.fields[fld] = new
         if con.check_inv and inv_before:
@@ -102,6 +109,17 @@ def apply_contract(I, con, f, args, kwargs, bound_self, caller=None):
             continue  # clause over a ghost parameter of the callee's own proof
         ctx.assume(_z(eval_clause(I, lam, b2, old_view=old_view)))
     return result
+
+
+def _observe(I, where, args=()):
+    ctl = getattr(I, "await_ctl", None)
+    if ctl is None or ctl.con.observe_ is None:
+        return
+    lam = ctl.con.observe_
+    b = {n: v for n, v in ctl.bindings.items()}
+    names = _params(lam)
+    d = _eval_value(I, lam, {n: b[n] for n in names if n in b})
+    I.ctx.emit("observe", where, d, args)
 
 
 def _params(lam):
